@@ -241,7 +241,7 @@ Definition countdown_iters (code lit : nat) (e : Z) : nat :=
   | 3 => Z.to_nat (e + 1 - Z.of_nat lit)
   | _ => 0
   end%nat.
-(** the trim of SetOptions (fix 3f6f771):
+(** the trim of SetOptions (fix 4af396d):
     [if Capacity > 0 { for excess := len(cache) - Capacity; excess > 0; excess-- { evict one } }] *)
 Definition trim_count (n : nat) (s : state) : nat :=
   if cmp_nat cache_trim_guard_cmp n cache_trim_guard_lit
